@@ -265,6 +265,12 @@ def Instr.regs : Instr → List Nat
   | .cpy d s | .add d s | .mult d s | .je d s _ => [d, s]
   | .j _ => []
 
+/-- registers an instruction writes -/
+def Instr.writes : Instr → List Nat
+  | .clr r | .rset r _ | .m2r r _ | .inc r | .dec r | .i2r r _ => [r]
+  | .cpy d _ | .add d _ | .mult d _ => [d]
+  | .r2m _ _ | .je _ _ _ | .jz _ _ | .j _ | .r2o _ _ => []
+
 def regCount (code : List Instr) : Nat :=
   maxList (code.flatMap fun i => i.regs.map (· + 1))
 
